@@ -24,6 +24,9 @@ from rig.ecdsa_rig import TOY8, TOYBIG, hx, ihex, to_bytes
 INV = ["CorpusShape", "Complete", "SignDefn", "SignFails", "Exact", "ListExact"]
 APIS = ("be", "le", "bn")
 MAX_PER_KEY = 3
+SAMPLES = []
+def sample(lines, k=2):
+    if len(SAMPLES) < 40: SAMPLES.extend(l[:220] for l in lines[:k])
 
 class Fails:
     def __init__(self, ctx):
@@ -95,7 +98,6 @@ def sign_row_matches(cp, lib, row, rvals):
 
 def sign_symptom(bad):
     v, got, exp, ks = bad[0]
-    if all(g is not None and 0 in k for _, g, ex, k in bad): return "signs-with-zero-secret"      # only random values that stand for 0 differ
     if got is not None and all(e is None for e in exp): return "signs-where-no-signature-exists"
     if got is None: return "fails-for-valid-input"
     return "wrong-signature"
@@ -109,6 +111,7 @@ def check_sign(ctx, F, cp, rows, jobs, b):
         rv = cp.rnds; rspec = ",".join(ihex(v) for v, _ in rv)
     for alg, api, d, h in jobs:
         lines.append("signrow %s %s %s %s %s %s" % (cp.name, alg[0], api, ihex(d), h[0], rspec)); meta.append((alg, api, d, h))
+    sample(lines)
     res = R.run_lines(b, lines)
     n = 0
     for ln, (alg, api, d, h), a in zip(lines, meta, res):
@@ -121,17 +124,24 @@ def check_sign(ctx, F, cp, rows, jobs, b):
         cands = [(e, sign_row_matches(cp, lib, rows[(cp.name, alg, d, e)], rv)) for e in eset if (cp.name, alg, d, e) in rows]
         if not cands: raise common.Infra("no reference row for %s" % ln)
         if any(not bad for _, bad in cands): continue
-        if elib not in eset and (cp.name, alg, d, elib) in rows and not sign_row_matches(cp, lib, rows[(cp.name, alg, d, elib)], rv):
-            F.add("ecdsa:hash-to-integer:%s" % cls,
-                  "%s (%s)\nbuild %s\ncase %s\nthe signatures are those of e = %d (documented library conversion); the standard's e is %s" % (fn, alg, b.name, ln, elib, eset),
-                  {"case": ln, "build": b.name})
-            continue
+        def only_zero(bad):       # the entries that differ are successful calls for random values that stand for the secret 0
+            return bool(bad) and all(g is not None and 0 in k for _, g, _, k in bad)
+        zero_key = "ecdsa_sign:signs-with-zero-secret"   # one defect: ecdsa_sign does not look at the status / infinity flag of k*G
+        zero_txt = "%s (%s)\nbuild %s\ncase %s\na random block that stands for the secret 0 is signed: %s"
+        zc = [bad for _, bad in cands if only_zero(bad)]
+        if zc:
+            F.add(zero_key, zero_txt % (fn, alg, b.name, ln, [x[:3] for x in zc[0][:3]]), {"case": ln, "build": b.name}); continue
+        if elib not in eset and (cp.name, alg, d, elib) in rows:
+            badl = sign_row_matches(cp, lib, rows[(cp.name, alg, d, elib)], rv)
+            if not badl or only_zero(badl):
+                F.add("ecdsa:hash-to-integer:%s" % cls,
+                      "%s (%s)\nbuild %s\ncase %s\nthe signatures are those of e = %d (documented library conversion); the standard's e is %s" % (fn, alg, b.name, ln, elib, eset),
+                      {"case": ln, "build": b.name})
+                if badl: F.add(zero_key, zero_txt % (fn, alg, b.name, ln, [x[:3] for x in badl[:3]]), {"case": ln, "build": b.name})
+                continue
         e, bad = min(cands, key=lambda c: len(c[1]))
-        sym = sign_symptom(bad)
-        # one defect: ecdsa_sign does not look at the status / the infinity flag of k*G (visible with the binary multiplier, GOST: no inverse of k)
-        key = "ecdsa_sign:signs-with-zero-secret" if sym == "signs-with-zero-secret" else "%s:%s:%s" % (fn, alg, sym)
-        F.add(key, "%s (%s)\nbuild %s\ncase %s\ne = %d: %d of %d entries differ; first (random value, got, admissible signatures): %s" % (fn, alg, b.name, ln, e, len(bad), len(lib), [x[:3] for x in bad[:3]]),
-              {"case": ln, "build": b.name})
+        F.add("%s:%s:%s" % (fn, alg, sign_symptom(bad)), "%s (%s)\nbuild %s\ncase %s\ne = %d: %d of %d entries differ; first (random value, got, admissible signatures): %s" % (
+              fn, alg, b.name, ln, e, len(bad), len(lib), [x[:3] for x in bad[:3]]), {"case": ln, "build": b.name})
     return n
 
 def key_blocks(cp, q, api, form, rng):
@@ -200,6 +210,7 @@ def check_vlist(ctx, F, cp, vl, jobs, b):
             x, y = key_blocks(cp, q, api, form, rng)
             lines.append("vlist %s %s %s %s %s %s %s" % (cp.name, alg[0], api, x, y, h[0], ps))
         meta.append((alg, api, qi, form, h, priv, pairs, es))
+    sample(lines, 1)
     res = R.run_lines(b, lines)
     n = 0
     for ln, (alg, api, qi, form, h, priv, pairs, es), a in zip(lines, meta, res):
@@ -242,6 +253,7 @@ def check_vgrid(ctx, F, cp, vg, jobs, b):
         else:
             x, y = key_blocks(cp, q, api, form, rng); lines.append("vgrid %s %s %s %s %s %s %s" % (cp.name, alg[0], api, x, y, h[0], ihex(mx)))
         meta.append((alg, api, qi, form, h, priv, mx))
+    sample(lines, 1)
     res = R.run_lines(b, lines, timeout=1500)
     n = 0
     for ln, (alg, api, qi, form, h, priv, mx), a in zip(lines, meta, res):
@@ -422,6 +434,7 @@ def run(ctx):
         if "err" in cres: raise cres["err"]
         ecdsa_modec.finish(ctx, F, cres["st"])
     F.flush()
+    ctx.add(samples=sorted(set(SAMPLES), key=lambda l: (l.split()[0], len(l)))[:12])
     ctx.cov["builds"] = [b.name for b in builds]
     ctx.cov["rule"] = ("tier B: the corpus is the set of reachable states of EcdsaGen under the slice written to the .cfg files; "
                        "sign rows range over every secret 0..n-1 (8-bit curves), accept sets over the full (r,s) grid or the pair list; "
